@@ -88,17 +88,26 @@ class Node:
         """
         # parse like PyYAML does when loading, so that e.g. 0x1F and .inf work
         constructor = yaml.constructor.SafeConstructor()
-        if self.yaml_node.tag == 'tag:yaml.org,2002:str':
-            return str(self.yaml_node.value)
-        if self.yaml_node.tag == 'tag:yaml.org,2002:int':
-            return cast(int, constructor.construct_yaml_int(self.yaml_node))
-        if self.yaml_node.tag == 'tag:yaml.org,2002:float':
-            return cast(float, constructor.construct_yaml_float(
-                self.yaml_node))
-        if self.yaml_node.tag == 'tag:yaml.org,2002:bool':
-            return cast(bool, constructor.construct_yaml_bool(self.yaml_node))
-        if self.yaml_node.tag == 'tag:yaml.org,2002:null':
-            return None
+        try:
+            if self.yaml_node.tag == 'tag:yaml.org,2002:str':
+                return str(self.yaml_node.value)
+            if self.yaml_node.tag == 'tag:yaml.org,2002:int':
+                return cast(int, constructor.construct_yaml_int(
+                    self.yaml_node))
+            if self.yaml_node.tag == 'tag:yaml.org,2002:float':
+                return cast(float, constructor.construct_yaml_float(
+                    self.yaml_node))
+            if self.yaml_node.tag == 'tag:yaml.org,2002:bool':
+                return cast(bool, constructor.construct_yaml_bool(
+                    self.yaml_node))
+            if self.yaml_node.tag == 'tag:yaml.org,2002:null':
+                return None
+        except (ValueError, KeyError, IndexError):
+            # tagged (explicitly, or by a liberal implicit resolver
+            # pattern) as something it cannot be parsed as
+            raise RecognitionError('{}\nInvalid value for {}'.format(
+                self.yaml_node.start_mark,
+                self.yaml_node.tag.split(':')[-1]))
         raise RuntimeError('This node with tag "{}" is not of the right type'
                            ' for get_value()'.format(self.yaml_node.tag))
 
